@@ -49,22 +49,31 @@ DETERMINISTIC = {"eg", "ucb1", "linucb", "radius_city", "radius_cheb", "knn_city
 REPLACED = {"radius_city", "radius_cheb", "radius_ts", "knn_city", "knn_cheb", "knn_lin", "lsh", "lsh_ts"}
 CONTEXT_FREE = {"eg", "eg25", "ucb1", "ts", "softmax"}
 
-LISTS = [["eg", "ucb1"], ["radius_city", "radius_cheb"], ["knn_city", "knn_cheb", "radius_city"], ["linucb", "lints"],
+LISTS = [["knn_city_j2", "knn_cheb", "radius_city_j2"], ["lsh_j2", "knn_lin_j2", "clusters"], ["eg", "ucb1"], ["radius_city", "radius_cheb"], ["knn_city", "knn_cheb", "radius_city"], ["linucb", "lints"],
          ["lsh", "clusters"], ["ts", "radius_ts", "lsh_ts"], ["tree", "eg25", "lingreedy"], ["knn_lin", "radius_cheb", "softmax"],
          ["clusters_ts", "knn_cheb", "radius_city"], ["radius_cheb", "radius_city", "knn_city", "knn_cheb"]]
 
 
+def base_name(name):
+    return name[:-3] if name.endswith("_j2") else name
+
+
 def make(name, seed, n_jobs=1):
     from mabwiser.mab import MAB, LearningPolicy as LP, NeighborhoodPolicy as NP
-    lp, np_ = BANDITS[name](LP, NP, seed)
+    if name.endswith("_j2"):
+        n_jobs = 2
+    lp, np_ = BANDITS[base_name(name)](LP, NP, seed)
     return MAB([LM[a] for a in ARMS], lp, np_, seed=seed, n_jobs=n_jobs)
 
 
-def dataset(n, rnd, binary):
+def dataset(n, rnd, binary, decimal=False):
     labels = [ARMS[i % 3] if i < 3 else rnd.choice(ARMS) for i in range(n)]
     rnd.shuffle(labels)
     rewards = [rnd.choice([0, 1]) if binary else rnd.choice([0, 1, 2, 3]) for _ in range(n)]
-    contexts = [[float(rnd.randrange(3)), float(rnd.randrange(3))] for _ in range(n)]
+    if decimal:      # a 0.1 grid: distances that differ only in the last bits (the comparison is implementation vs implementation)
+        contexts = [[rnd.randrange(12) / 10.0, rnd.randrange(12) / 10.0] for _ in range(n)]
+    else:
+        contexts = [[float(rnd.randrange(3)), float(rnd.randrange(3))] for _ in range(n)]
     return labels, rewards, contexts
 
 
@@ -81,12 +90,12 @@ def run_config(conf, names, seed, is_quick, findings, counters, records):
     from sklearn.model_selection import train_test_split
     warnings.filterwarnings("ignore")
     rnd = random.Random(seed * 7919 + conf["n"] * 31 + conf["batch"])
-    binary = any(n in ("ts", "radius_ts", "lsh_ts", "clusters_ts") for n in names)
-    labels, rewards, contexts = dataset(conf["n"], rnd, binary)
+    binary = any(base_name(n) in ("ts", "radius_ts", "lsh_ts", "clusters_ts") for n in names)
+    labels, rewards, contexts = dataset(conf["n"], rnd, binary, decimal=bool(seed % 2))
     d = np.asarray([LM[a] for a in labels])
     r = np.asarray([float(x) for x in rewards])
     c = np.asarray(contexts)
-    contextual_any = any(n not in CONTEXT_FREE for n in names)
+    contextual_any = any(base_name(n) not in CONTEXT_FREE for n in names)
     bandit_seed = 100 + seed
     bandits = [(name, make(name, bandit_seed + i)) for i, name in enumerate(names)]
     refs = {name: copy.deepcopy(mab) for name, mab in bandits}
@@ -113,11 +122,12 @@ def run_config(conf, names, seed, is_quick, findings, counters, records):
         if [int(i) for i in split_test] != test_idx:
             findings.append(_f("split.sklearn", "test_indices %s differ from sklearn's split %s" % (test_idx, split_test), where))
             return
-    T = conf["T"]
+    T = conf.get("T", len(test_idx))
     # ---- C15: the script on the public API -----------------------------------------------------------------
-    for name in names:
+    for name in (names if "script" in conf else []):
         ref = refs[name]
-        cf = name in CONTEXT_FREE
+        bname = base_name(name)
+        cf = bname in CONTEXT_FREE
         preds, exps = [], []
         try:
             for step in conf["script"]:
@@ -129,7 +139,7 @@ def run_config(conf, names, seed, is_quick, findings, counters, records):
                     continue
                 rows = [test_idx[i - 1] for i in step["rows"]]
                 if step["op"] == "predict":
-                    if name in DETERMINISTIC and name in REPLACED:
+                    if bname in DETERMINISTIC and bname in REPLACED:
                         e = copy.deepcopy(ref).predict_expectations(c[rows])      # stream-neutral reading
                         exps.extend(e if isinstance(e, list) else [e])
                     if cf:
@@ -138,7 +148,7 @@ def run_config(conf, names, seed, is_quick, findings, counters, records):
                         p = ref.predict(c[rows])
                         preds.extend(p if isinstance(p, list) else [p])
                 elif step["op"] == "expectations":
-                    if cf or name in REPLACED:
+                    if cf or bname in REPLACED:
                         continue
                     e = ref.predict_expectations(c[rows])
                     exps.extend(e if isinstance(e, list) else [e])
@@ -147,7 +157,7 @@ def run_config(conf, names, seed, is_quick, findings, counters, records):
                         ref.partial_fit(d[rows], r[rows])
                     else:
                         ref.partial_fit(d[rows], r[rows], c[rows])
-            if conf["batch"] == 0 and not cf and name not in REPLACED:
+            if conf["batch"] == 0 and not cf and bname not in REPLACED:
                 e = ref.predict_expectations(c[test_idx])
                 exps = e if isinstance(e, list) else [e]
         except Exception as error:  # noqa
@@ -159,7 +169,7 @@ def run_config(conf, names, seed, is_quick, findings, counters, records):
         if got != want:
             findings.append(_f("predictions", "bandit %s: Simulator reports predictions %s, the public API gives %s"
                                % (name, got, want), dict(where, bandit=name)))
-        if name in DETERMINISTIC and not cf and exps:
+        if bname in DETERMINISTIC and not cf and exps:
             rep = sim.bandit_to_expectations[name]
             if len(rep) != len(exps) or not all(_same_exp(a, b) for a, b in zip(rep, exps)):
                 findings.append(_f("expectations", "bandit %s: Simulator reports expectations %s, the public API gives %s"
@@ -213,7 +223,7 @@ def record(sim, names, labels, rewards, conf, test_idx, is_quick):
                 t = t["total"]
             evals[st] = {INV[a]: stats_rec(t[a]) for a in t}
         nb = []
-        if name in REPLACED and not is_quick:
+        if base_name(name) in REPLACED and not is_quick:
             for row in sim.bandit_to_arm_to_stats_neighborhoods[name]:
                 entry = {}
                 for a in ARMS:
@@ -223,6 +233,7 @@ def record(sim, names, labels, rewards, conf, test_idx, is_quick):
         bandits.append({"name": name, "predictions": [INV[p.item() if hasattr(p, "item") else p] for p in sim.bandit_to_predictions[name]],
                         "evals": evals, "nb": nb})
     return {"arms": list(ARMS), "data": [{"a": a, "r": int(x)} for a, x in zip(labels, rewards)], "ts": list(conf["ts"]),
+            "exact": "script" in conf,
             "ordered": bool(conf["ordered"]), "batch": conf["batch"], "test_indices": test_idx,
             "stats": {"total": arm_stats(sim.arm_to_stats_total), "train": arm_stats(sim.arm_to_stats_train),
                       "test": arm_stats(sim.arm_to_stats_test)}, "bandits": bandits}
